@@ -36,6 +36,14 @@ def append1 (h : Heap) (b : Buf) (v : Int) : Option (Heap × Buf) :=
 def Res.eraseKind {α : Type} : Res α → Res α
   | .panic h _ => .panic h .other
   | r => r
+/-- `make([]T, n, c)`: a fresh zeroed block of `c` cells and the slice `[0, n)` of it; Go panics unless `0 ≤ n ≤ c`.
+(The header's channel count and depth are filled in by the composite literal around it.) -/
+def make (h : Heap) (k : Kind) (n c : Int) : Option (Heap × Buf) :=
+  if 0 ≤ n ∧ n ≤ c then
+    some (h ++ [List.replicate c.toNat 0],
+      { ch := 0, blk := h.length, off := 0, len := n.toNat, cap := c.toNat, kind := k, depth := 0 })
+  else none
+
 end Sig.Gen
 
 namespace Sig
